@@ -120,17 +120,18 @@ def run(ctx):
             break
         start = int(prog[0]) + 1
     if not ctx.replay:
-        rc2, out2, outdir2 = ctx.go_test("./server/", OVERLAY, "^TestVerifC03Liveness$", timeout=600)
-        if rc2 != 0:
-            ctx.violation("driver-failed", "", out2[-1500:], no_input=True)
-        ctx.read_stats(outdir2)
-        ctx.classify(ctx.l2(outdir2))
+        for extra in ("^TestVerifC03Liveness$", "^TestVerifC03F21$"):
+            rc2, out2, outdir2 = ctx.go_test("./server/", OVERLAY, extra, timeout=600)
+            if rc2 != 0:
+                ctx.violation("driver-failed", "", out2[-1500:], no_input=True)
+            ctx.read_stats(outdir2)
+            ctx.classify(ctx.l2(outdir2))
     if ctx.thorough:
         ctx.leanchecker(MODULES)
     ctx.assumptions += [
         "SHA-256 is an uninterpreted function hash : Bytes -> Digest (no injectivity assumed)",
         "POSIX program-order file effects, atomic rename; no crash inside an attempt (crash points are C12)",
-        "one pull at a time per digest; the caller does not cancel",
+        "one pull at a time per digest; the caller cancels only inside a chunk read (cancellation before the download goroutine has started is probed separately: F21)",
         "a stalling peer eventually sends an error or is detected (a peer that never sends a byte hangs the code)",
     ]
     return ctx.finish(
